@@ -220,8 +220,7 @@ where
                 }
 
                 ParseState::Literal => match byte {
-                    // Any ASCII whitespace byte terminates the literal.
-                    b @ (b' ' | b'\n'..=b'\r') => {
+                    b if b.is_ascii_whitespace() => {
                         self.finish_literal()?;
 
                         // A line break ends the literal like any other whitespace, but it also
